@@ -66,6 +66,37 @@ def candidates(rng):
     ]
 
 
+def lazy_inverse_matrix_case(ctx: Ctx, stream: str, i: int) -> None:
+    """`as_matrix()` of a lazy inverse against the matrix inverse computed independently (float64 NumPy): operands that
+    are symmetric or not, well or ill conditioned (cond ≈ 4·10⁵, invertible in the arithmetic of the data)"""
+    from furax._base.core import InverseOperator
+    from furax._base.dense import DenseBlockDiagonalOperator
+    rng = ctx.rng(stream, i)
+    n = 3
+    dt = jnp.float64 if jax.config.jax_enable_x64 else jnp.float32
+    kind = ['spd', 'non-symmetric', 'ill-conditioned-diagonal', 'ill-conditioned-rotated'][i % 4]
+    q, _ = np.linalg.qr(np.array([[rng.uniform(-1, 1) for _ in range(n)] for _ in range(n)]))
+    if kind == 'spd':
+        mat = (q * np.array([4.0, 2.0, 1.0])) @ q.T
+    elif kind == 'non-symmetric':
+        mat = np.diag([3.0, 4.0, 5.0]) + np.array([[0, 1.0, 2.0], [0, 0, 1.0], [rng.choice([1.0, -2.0]), 0, 0]])
+    elif kind == 'ill-conditioned-diagonal':
+        mat = np.diag([3.0, 1.0, 2.0 ** -17])
+    else:
+        mat = (q * np.array([3.0, 1.0, 2.0 ** -17])) @ q.T
+    op = InverseOperator(DenseBlockDiagonalOperator(jnp.asarray(mat, dtype=dt), gen.S(n, dtype=dt)))
+    want = np.linalg.inv(mat)
+    tol = 0.2 if kind.startswith('ill') else 1e-3
+    st, am = safe(lambda: np.asarray(op.as_matrix(), dtype=np.float64))
+    cfg = {'kind': kind, 'matrix': mat.tolist()}
+    if st != 'ok' or am.shape != want.shape or not np.all(np.isfinite(am)) or \
+            not np.allclose(am, want, rtol=tol, atol=tol * np.abs(want).max()):
+        ctx.fail(stream, i, f'as_matrix-override-wrong:lazy-inverse:{kind}', f'InverseOperator.as_matrix() of a {kind} operand is '
+                 f'not the matrix inverse ({st})', cfg)
+    ctx.count('lazy-inverse-matrix:' + kind)
+    ctx.case(f'lazyinv:{kind}:{mat.tolist()}', True, sample={'lazy_inverse_matrix': kind})
+
+
 def one_case(ctx: Ctx, stream: str, i: int) -> None:
     from furax._base.core import AbstractLinearOperator
     rng = ctx.rng(stream, i)
@@ -125,3 +156,6 @@ def run(ctx: Ctx) -> None:
     for i in range(14 if ctx.tier == 'quick' else 200):
         if ctx.want('op', i):
             one_case(ctx, 'op', i)
+    for i in range(16 if ctx.tier == 'quick' else 400):
+        if ctx.want('lazyinv', i):
+            lazy_inverse_matrix_case(ctx, 'lazyinv', i)
